@@ -684,7 +684,9 @@ def direct(ctx, R, key, s, loop, o, A, K, Ck):
             ctx.ok(R, '%s: adds knight attackers (knight_moves(k) & enemy knights) and pawn attackers (pawn_attacks(k, own colour, enemy pawns))' % key,
                    where(body, ups[0]['line'] if ups else None))
         else:
-            ctx.violation(R, key + ':direct', 'from-scratch routine must add exactly the knight and the pawn attackers of k, found %s' % kinds,
+            why_ = 'found %s' % kinds if kinds != ['knight', 'pawn'] else \
+                'they are added only under a condition (an early return or guard before them): on the other paths a knight or pawn check is lost'
+            ctx.violation(R, key + ':direct', 'from-scratch routine must add exactly the knight and the pawn attackers of k on every path: %s' % why_,
                           where(body, (ups[0]['line'] if ups else None)))
         return
     # incremental: classify every path from entry to the scan by the moved piece
